@@ -305,6 +305,113 @@ def load {α : Type} (diskLen : Nat) (r : Except Err α) : Except Err α :=
     (`volumeutils.py:446`, `_is_compressed_fobj`) -/
 def effMmap (mmap compressed : Bool) : Bool := mmap && !compressed
 
+/-! ## Per-read end-of-stream behaviour
+
+    `Src` fixes ONE behaviour for the whole life of the file object (`strict`).  A real decompressor decides
+    per call: `GzipFile.read(n)` spanning the truncation point may hand out the short rest once and raise
+    on the next call.  The `…G` readers below are the volume readers with the file access abstracted to a
+    request function `rd pos n` (`seek(pos); read(n)`); `ReadsOf bytes rd` lets EVERY request independently
+    either deliver exactly the available part of `bytes` or raise (at any time, even when enough data are
+    there).  `Lemmas/C08_PerRead`: with `rd := s.read` they are the readers above, and for any `rd` with
+    `ReadsOf bytes rd` the result is the result on the lax source `⟨bytes, false⟩` or an error.
+    (The decision is a function of the request `(pos, n)`; the readers never repeat a request.) -/
+
+def ReadsOf (bytes : Bytes) (rd : Nat → Nat → Except Err Bytes) : Prop :=
+  ∀ pos n, rd pos n = .ok ((bytes.drop pos).take n) ∨ ∃ e, rd pos n = .error e
+
+def sniffOkG (fmt : VolFmt) (rd : Nat → Nat → Except Err Bytes) : Bool :=
+  if fmt.sniffLen = 0 then true
+  else match rd 0 (max fmt.sniffLen 1024) with
+    | .error _ => false
+    | .ok b => decide (fmt.sniffLen ≤ b.length)
+
+def readExtsG (rd : Nat → Nat → Except Err Bytes) : Nat → Nat → Int → Except Err Unit
+  | 0, _, _ => .error .bad
+  | fuel + 1, pos, size =>
+    if 16 ≤ size ∨ size < 0 then
+      match rd pos 8 with
+      | .error e => .error e
+      | .ok d =>
+        if d.length = 0 ∧ size < 0 then .ok ()
+        else if d.length ≠ 8 then .error .trunc
+        else
+          let esize := rdLE d 0 4
+          if esize = 0 then .ok ()
+          else if 2 ^ 31 ≤ esize ∨ esize < 8 then .error .bad
+          else match rd (pos + 8) (esize - 8) with
+            | .error e => .error e
+            | .ok v =>
+              if v.length ≠ esize - 8 then .error .trunc
+              else readExtsG rd fuel (pos + esize) (size - esize)
+    else .ok ()
+
+def dataReadG (rd : Nat → Nat → Except Err Bytes) (off n : Nat) : Except Err Bytes :=
+  if n = 0 then .ok []
+  else match rd off n with
+    | .error e => .error e
+    | .ok b => if b.length ≠ n then .error .trunc else .ok b
+
+def readDataG (useMmap : Bool) (bytes : Bytes) (rd : Nat → Nat → Except Err Bytes) (off n : Nat) :
+    Except Err Bytes :=
+  if useMmap then
+    (if 0 < n ∧ off + n ≤ bytes.length then .ok ((bytes.drop off).take n) else dataReadG rd off n)
+  else dataReadG rd off n
+
+def readHeaderG (fmt : VolFmt) (single : Bool) (bytes : Bytes) (rd : Nat → Nat → Except Err Bytes) :
+    Except Err (Nat × Nat) :=
+  if ¬ sniffOkG fmt rd then .error .bad
+  else match rd 0 fmt.hdrSize with
+    | .error e => .error e
+    | .ok hb =>
+      if hb.length ≠ fmt.hdrSize then .error .trunc
+      else
+        let n := rdLE hb 0 8
+        let off := fmt.fixedOff.getD (rdLE hb 8 8)
+        let extPhase : Except Err Unit :=
+          if fmt.exts then
+            match rd fmt.hdrSize 4 with
+            | .error e => .error e
+            | .ok st =>
+              if st.length < 4 ∨ st.head? = some 0 then .ok ()
+              else readExtsG rd (bytes.length + 1) (fmt.hdrSize + 4)
+                     (if single then (off : Int) - (fmt.hdrSize + 4 : Nat) else -1)
+          else .ok ()
+        match extPhase with
+        | .error e => .error e
+        | .ok () =>
+          if fmt.footer = 0 then .ok (n, off)
+          else match rd (off + n) fmt.footer with
+            | .error e => .error e
+            | .ok _ => .ok (n, off)
+
+def readSingleG (fmt : VolFmt) (useMmap : Bool) (bytes : Bytes) (rd : Nat → Nat → Except Err Bytes) :
+    Except Err Bytes :=
+  match readHeaderG fmt true bytes rd with
+  | .error e => .error e
+  | .ok (n, off) => readDataG useMmap bytes rd off n
+
+def readPairG (fmt : VolFmt) (useMmap : Bool) (hbytes : Bytes) (hrd : Nat → Nat → Except Err Bytes)
+    (ibytes : Bytes) (ird : Nat → Nat → Except Err Bytes) : Except Err Bytes :=
+  match readHeaderG fmt false hbytes hrd with
+  | .error e => .error e
+  | .ok (n, off) => readDataG useMmap ibytes ird off n
+
+def readSegsLoopG (rd : Nat → Nat → Except Err Bytes) : List (Nat × Nat) → Except Err Bytes
+  | [] => .ok []
+  | (o, l) :: r =>
+    match rd o l with
+    | .error e => .error e
+    | .ok b =>
+      match readSegsLoopG rd r with
+      | .error e => .error e
+      | .ok bs => .ok (b ++ bs)
+
+def readSegmentsG (rd : Nat → Nat → Except Err Bytes) (segs : List (Nat × Nat)) (nBytes : Nat) :
+    Except Err Bytes :=
+  match readSegsLoopG rd segs with
+  | .error e => .error e
+  | .ok b => if b.length ≠ nBytes then .error .trunc else .ok b
+
 /-! ## TRK -/
 
 def trkHdrSize : Nat := 1000
@@ -573,6 +680,45 @@ def xmlRead (rootEnd : Nat) (s : Src) : Except Err Bytes :=
   match s.readAll 0 with
   | .error e => .error e
   | .ok b => if b.length < rootEnd then .error .trunc else .ok (b.take rootEnd)
+
+/-! ### XML: the driver around expat (`xmlutils.py:83-109` `XmlParser.parse` → `parser.ParseFile(fptr)`)
+
+    `ParseFile` (pyexpat) reads the file in blocks, hands every block to expat with `final = False`, and — when
+    a read returns nothing — makes one last call `Parse(b'', final = True)`.  expat itself is abstract: -/
+
+/-- whether expat accepts the call `Parse(chunk, final)` after having been fed `acc` -/
+structure Expat where
+  accepts : Bytes → Bytes → Bool → Bool
+
+/-- THE ASSUMPTION about expat: told that the document is finished (`final`) while it has seen fewer than
+    `rootEnd` bytes — i.e. the root end tag is missing — it raises.  Nothing is assumed about non-final
+    calls (expat happily accepts any prefix of a well-formed document then). -/
+def Expat.Contract (E : Expat) (rootEnd : Nat) : Prop :=
+  ∀ acc chunk, (acc ++ chunk).length < rootEnd → E.accepts acc chunk true = false
+
+/-- the block loop; `final`: whether the closing `Parse(b'', True)` is made (`ParseFile`: yes) -/
+def xmlFeedLoop (E : Expat) (s : Src) (bs : Nat) (final : Bool) : Nat → Nat → Bytes → Except Err Bytes
+  | 0, _, _ => .error .bad
+  | fuel + 1, pos, acc =>
+    match s.read pos bs with
+    | .error e => .error e
+    | .ok b =>
+      if b = [] then
+        if final then (if E.accepts acc [] true then .ok acc else .error .trunc) else .ok acc
+      else if E.accepts acc b false then xmlFeedLoop E s bs final fuel (pos + b.length) (acc ++ b)
+      else .error .bad
+
+/-- `parser.ParseFile(fptr)` with block size `bs` -/
+def xmlParseFile (E : Expat) (bs : Nat) (s : Src) : Except Err Bytes :=
+  xmlFeedLoop E s bs true (s.bytes.length + 2) 0 []
+
+/-- the variant of seeded change C08_6: blocks fed by hand, the closing `Parse(b'', True)` forgotten -/
+def xmlParseNoFinal (E : Expat) (bs : Nat) (s : Src) : Except Err Bytes :=
+  xmlFeedLoop E s bs false (s.bytes.length + 2) 0 []
+
+/-- the most permissive expat the contract allows: complains only at the final call -/
+def lazyExpat (rootEnd : Nat) : Expat :=
+  ⟨fun acc chunk final => !final || decide (rootEnd ≤ (acc ++ chunk).length)⟩
 
 /-- CIFTI-2 (`cifti2/cifti2.py` `Cifti2Image.from_file_map`, `cifti2/parse_cifti2.py`): a NIfTI-2 single
     file whose first extension (ecode 32) holds the XML header; the extension content — complete whenever
